@@ -48,6 +48,8 @@ ERRORS = [
     ("bad-suffix", "lda.q #1", 4), ("bad-suffix-eol", "lda.", 4), ("bad-index", "lda 0x10,z", 9), ("bad-index-spaced", "lda 0x10 ,  q", 12),
     ("unterminated-string", ".ascii 'abc", 7), ("invalid-char", "lda #1 ?", 7), ("invalid-char-start", "$", 0),
     ("unknown-keyword", ".bogus 1", 1), ("unterminated-comment", "/* never closed", 0),
+    # a code lookup of a name bound to a number: the NodeError raised DURING code generation carries the statement's place
+    ("code-lookup-number", "{{zz_cl5}}", None, "zz_cl5 := 5"), ("code-lookup-number-hex", "{{zz_cl16}} ; here", None, "zz_cl16 := 0x10"),
     # syntax errors whose offending token stands on the statement's own line (a statement that merely ends too early is
     # reported at the NEXT token, wherever that is: C17_parse_error_locus)
     ("syntax-second-comma", ".db 1, ,", 7), ("syntax-macro-number", ".macro 1", 7), ("syntax-if-brace", ".if {", 4),
